@@ -238,3 +238,7 @@ impl FeatureState for TravelLimitState {
 
     fn accept_solution_state(&self, _: &mut SolutionContext) {}
 }
+
+#[cfg(kani)]
+#[path = "/verif/kani/vrp-core/tour_limits_proofs.rs"]
+mod verif_kani_proofs;
